@@ -107,11 +107,11 @@ class Fitness:
 
         self._log_likelihood_function = None
 
-        if self.paths is not None:
-            self.check_log_likelihood(fitness=self)
-
         self.parameters_history_list = []
         self.log_likelihood_history_list = []
+
+        if self.paths is not None:
+            self.check_log_likelihood(fitness=self)
 
     def __getstate__(self):
         state = self.__dict__.copy()
